@@ -129,7 +129,7 @@ def state_argument(spec):
         return " ".join(st)
     if decl == "string-mixed":
         return ", ".join(st[:len(st) // 2 + 1]) + "  " + " ".join(st[len(st) // 2 + 1:])
-    if decl == "limits" or spec.get("limits"):
+    if decl == "limits":
         lims = spec.get("limits") or [[0, None]] * len(st)
         return [(s, (l[0], l[1])) for s, l in zip(st, lims)]
     return st
